@@ -1059,8 +1059,114 @@ def run_factory_new(w) -> None:
             loaded.unload()
 
 
+BUILTIN_BASES_SOURCE = '''
+import collections
+import icontract
+
+
+def well_formed(self):
+    HUB.inv("inv:" + type(self).__name__, self)
+    return len(self.args if isinstance(self, BaseException) else self) > 0
+
+
+@icontract.invariant(well_formed)
+class NonEmptyList(list{base}):
+    def first(self):
+        HUB.body("first", {{}})
+        return self[0]
+
+
+@icontract.invariant(well_formed)
+class NonEmptyDict(dict{base}):
+    def first(self):
+        HUB.body("first", {{}})
+        return sorted(self)[0]
+
+
+@icontract.invariant(well_formed)
+class NonEmptySet(set{base}):
+    def first(self):
+        HUB.body("first", {{}})
+        return sorted(self)[0]
+
+
+@icontract.invariant(well_formed)
+class NonEmptyDeque(collections.deque{base}):
+    def first(self):
+        HUB.body("first", {{}})
+        return self[0]
+
+
+@icontract.invariant(well_formed)
+class NonEmptyBytes(bytearray{base}):
+    def first(self):
+        HUB.body("first", {{}})
+        return self[0]
+
+
+@icontract.invariant(well_formed)
+class Reasoned(Exception{base}):
+    def first(self):
+        HUB.body("first", {{}})
+        return self.args[0]
+
+
+class LongerList(NonEmptyList):
+    """Inherits the constructor of the built-in through the class with invariants."""
+'''
+
+
+def run_builtin_bases(w) -> None:
+    """Classes with invariants derived from a built-in type which has a constructor slot of its own (list, dict, set, deque,
+    bytearray, Exception) and no Python-level __init__: the invariants are evaluated right after the construction - once - and
+    around the methods defined in Python."""
+    import icontract  # pylint: disable=import-outside-toplevel
+
+    for base in ("", ", icontract.DBC"):
+        loaded = prog.load_source(BUILTIN_BASES_SOURCE.format(base=base), w.scratch())
+        mod, hub = loaded.module, loaded.hub
+        try:
+            for cname, good, bad in (("NonEmptyList", ([1, 2],), ([],)), ("NonEmptyDict", ({"k": 1},), ({},)), ("NonEmptySet", ({3},), (set(),)),
+                                     ("NonEmptyDeque", ([1],), ([],)), ("NonEmptyBytes", (b"ab",), (b"",)), ("Reasoned", ("why",), ()),
+                                     ("LongerList", ([1, 2, 3],), ([],))):
+                if cname == "LongerList" and not base:
+                    continue  # (a plain sub-class of a class with invariants: contract inheritance needs DBC)
+                cls_obj = getattr(mod, cname)
+                for tag, args, want_outcome in (("valid", good, "returned"), ("invalid", bad, "violation")):
+                    hub.reset()
+                    obj = None
+                    try:
+                        obj = cls_obj(*args)
+                        outcome = "returned"
+                    except icontract.ViolationError:
+                        outcome = "violation"
+                    except BaseException as err:  # pylint: disable=broad-except
+                        outcome = "raised {}: {}".format(type(err).__name__, str(err)[:100])
+                    invs = [e.id for e in hub.events if e.kind == "inv"]
+                    w.count("constructions")
+                    w.count("builtin_base_constructions")
+                    w.case(("builtin-base", cname, base, tag))
+                    case = {"builtin_base": cname, "dbc": bool(base), "input": tag}
+                    if outcome != want_outcome or invs != ["inv:" + cname]:
+                        w.violation("C03/invariants-after-construction-differ", "{}({}) [{}]: {} with invariant evaluations {} (expected {} with "
+                                    "exactly one evaluation right after the constructor of the built-in returned)".format(
+                                        cname, ", ".join(map(repr, args)), "DBC" if base else "decorator only", outcome, invs, want_outcome), case)
+                        continue
+                    if obj is not None:
+                        hub.reset()
+                        obj.first()
+                        kinds = [e.kind for e in hub.events]
+                        w.count("operations")
+                        if kinds != ["inv", "body", "inv"]:
+                            w.violation("C03/invariants-around-operation-differ", "{}.first(): events {} (expected inv, body, inv)".format(cname, kinds), case)
+        finally:
+            loaded.unload()
+
+
 def run(w) -> None:
     rng = w.rng
+    if w.shard == 1 % w.nshards:
+        run_builtin_bases(w)
     if w.shard == 0:
         run_factory_new(w)
         run_nested_new(w)
@@ -1091,6 +1197,9 @@ def run(w) -> None:
 
 
 def replay(case, w) -> None:
+    if "builtin_base" in case:
+        run_builtin_bases(w)
+        return
     if "factory_new" in case:
         run_factory_new(w)
         return
